@@ -40,7 +40,7 @@ impl<T: Sized> JoinHandle<T> {
                 crate::verif_thread::JOIN_BEFORE_WAIT,
                 self.tsm.get_futex().as_ptr() as usize,
             );
-            futex_wait_fast(self.tsm.get_futex(), UNFINISHED);
+            self.tsm.wait_for_exit();
             // The thread has completed, we have exclusive access to the memory.
             // Pack it into a box, then consume the box to get the value off the heap.
             #[cfg(tiny_std_verif)]
@@ -80,7 +80,7 @@ impl<T: Sized> Drop for JoinHandle<T> {
                     crate::verif_thread::DROP_BEFORE_WAIT,
                     self.tsm.get_futex().as_ptr() as usize,
                 );
-                futex_wait_fast(self.tsm.get_futex(), UNFINISHED);
+                self.tsm.wait_for_exit();
                 #[cfg(tiny_std_verif)]
                 crate::verif_thread::point(
                     crate::verif_thread::DROP_BEFORE_DEALLOC,
@@ -176,6 +176,18 @@ impl Tsm {
             .cast::<AtomicU32>()
             .as_ref()
             .unwrap_unchecked()
+    }
+
+    /// Blocks until the kernel has cleared the futex word, which it does when the thread exits.
+    /// A `FUTEX_WAIT` may return without the word having changed (spurious wake-up), so the
+    /// word is checked again after every return. The `Acquire` load of the cleared word orders
+    /// everything the exited thread wrote before the caller's subsequent reads.
+    #[inline]
+    unsafe fn wait_for_exit(self) {
+        let futex = self.get_futex();
+        while futex.load(Ordering::Acquire) == UNFINISHED {
+            futex_wait_fast(futex, UNFINISHED);
+        }
     }
 
     #[inline]
